@@ -161,16 +161,27 @@ func (s *store) bootstrap() error {
 
 func (s *store) close() error {
 	s.mu.Lock()
-	defer s.mu.Unlock()
 
 	select {
 	case <-s.closing:
 		// already closed
+		s.mu.Unlock()
 		return nil
 	default:
 		close(s.closing)
-		return s.raftState.close()
 	}
+
+	// Shutting raft down waits for its FSM goroutine, which takes s.mu to apply
+	// a committed entry: stop raft before taking the lock for the rest.
+	rs := s.raftState
+	s.mu.Unlock()
+	if rs != nil && rs.raft != nil {
+		rs.raft.Shutdown().Error()
+	}
+
+	s.mu.Lock()
+	defer s.mu.Unlock()
+	return rs.close()
 }
 
 func (s *store) snapshot() (*Data, error) {
